@@ -120,6 +120,11 @@ def builtins():
             return IntV(v.length)
         if isinstance(v, ObjV) and '__len__' in v.fields:
             return v.fields['__len__'].fn(p, [v], {})
+        if isinstance(v, ObjV) and getattr(v, 'truth_fn', None) is not None and v.cls in ('heap', 'list', 'set', 'dict', 'tuple', 'LabelTuple'):
+            # a builtin container the contract models by its truthiness only: len(c) is some n >= 0 with (n > 0) == bool(c)
+            n = p.fresh_int('len')
+            p.assume(And(n >= 0, (n > 0) == v.truth_fn()))
+            return IntV(n)
         raise Unsupported('len of %r' % (v,))
 
     def _next(p, args, kw):
@@ -203,8 +208,25 @@ def builtins():
         t = _Int('all.t!%d' % n)
         from pyvc.engine import truthy
         # all(...) holds iff every element is truthy: (res -> forall t) and (not res -> a witness w)
-        p.assume(Implies(res, ForAll([t], Implies(And(0 <= t, t < it.length), truthy(it.at(t))))))
-        p.assume(Implies(Not(res), And(0 <= w, w < it.length, Not(truthy(it.at(w))))))
+        from pyvc.engine import bound
+        p.assume(Implies(res, ForAll([t], Implies(And(0 <= t, t < it.length), bound(p, lambda: truthy(it.at(t)))))))
+        p.assume(Implies(Not(res), And(0 <= w, w < it.length, Not(bound(p, lambda: truthy(it.at(w)))))))
+        return BoolV(res)
+
+    def _any(p, args, kw):
+        (it,) = args
+        if not isinstance(it, (IterV, SeqV)):
+            raise Unsupported('any of %r' % (it,))
+        from z3 import Bool, ForAll, Int as _Int
+        n = next(p.eng.counter)
+        res = Bool('any!%d' % n)
+        w = _Int('any.w!%d' % n)
+        t = _Int('any.t!%d' % n)
+        from pyvc.engine import truthy
+        # any(...) holds iff some element is truthy: (res -> a witness w) and (not res -> forall t: not truthy)
+        from pyvc.engine import bound
+        p.assume(Implies(res, And(0 <= w, w < it.length, bound(p, lambda: truthy(it.at(w))))))
+        p.assume(Implies(Not(res), ForAll([t], Implies(And(0 <= t, t < it.length), Not(bound(p, lambda: truthy(it.at(t))))))))
         return BoolV(res)
 
     def _call_class(p, f, x):
@@ -223,8 +245,15 @@ def builtins():
         from pyvc.engine import truthy
         return BoolV(p.truth(args[0]) if args else False)
 
-    return {'bool': FuncV('bool', _bool), 'map': FuncV('map', _map), 'set': FuncV('set', _set), 'zip': FuncV('zip', _zip), 'range': FuncV('range', _range),
-            'all': FuncV('all', _all),
+    def _dict(p, args, kw):
+        # dict(k=v, ...) == {'k': v, ...} (same insertion order); other forms are given by the contracts that need them
+        if args:
+            raise Unsupported('dict() of a positional argument')
+        from pyvc.engine import DictV
+        return DictV(dict(kw))
+
+    return {'dict': FuncV('dict', _dict), 'bool': FuncV('bool', _bool), 'map': FuncV('map', _map), 'set': FuncV('set', _set), 'zip': FuncV('zip', _zip), 'range': FuncV('range', _range),
+            'all': FuncV('all', _all), 'any': FuncV('any', _any),
             'enumerate': FuncV('enumerate', _enumerate), 'reversed': FuncV('reversed', _reversed),
             'isinstance': FuncV('isinstance', _isinstance), 'len': FuncV('len', _len), 'next': FuncV('next', _next),
             'tuple': FuncV('tuple', _tuple), 'list': FuncV('list', _list),
